@@ -343,9 +343,11 @@ where
             // the old range is stale and the node cannot be reused as it is.
             let moved = input.location_offset() - input.reference_pos != this.to_range().start;
             if moved || input.token_change.overlaps(&affected_range) {
-                match inner_parser.parse(input) {
+                match inner_parser.parse(input.clone()) {
                     Ok(result) => Ok(result),
-                    Err(nom::Err::Error(err)) => affected_error(err.input),
+                    // Whoever handles this error starts over without the old node,
+                    // so it has to get the input of this node, not of the failed sub-parser.
+                    Err(nom::Err::Error(_)) => affected_error(input),
                     Err(_) => panic!("Incomplete data"),
                 }
             } else if input.location_offset() != input.token_change.new_token_pos(this_range.start)
